@@ -5,10 +5,10 @@ from vlib import core
 THEOREMS = ["Props.C16." + t for t in [
     "fuel_suffices", "mark_sound", "mark_exact", "always_kept", "consts_typedefs_reachable", "kept_bodies_unchanged",
     "kept_refs_kept", "services_nofilter", "method_filter", "trim_resolves_partial",
-    "base_service_dropped", "not_idempotent_with_methods"]]
+    "base_service_dropped", "not_idempotent_with_methods", "fuel_independent", "bindings_preserved"]]
 
 PARTIAL = [
-    "trim_resolves: type references (kept_refs_kept) and, without -m, cross-file bases and same-file bases of root services (trim_resolves_partial) are proved; the full statement is false for a base service declared in the same included file as its heir - Props.C16.base_service_dropped is the decide-checked counterexample, reproduced on TrimAST by the oracle class trim-error",
+    "trim_resolves: type references (kept_refs_kept, bindings_preserved: same definitions as before) and, without -m, cross-file bases and same-file bases of root services (trim_resolves_partial) are proved; the full statement is false for a base service declared in the same included file as its heir - Props.C16.base_service_dropped is the decide-checked counterexample, reproduced on TrimAST by the oracle class trim-error",
     "trim_idempotent: false with -m (Props.C16.not_idempotent_with_methods, oracle class not-idempotent); without -m it is not proved (oracle-checked on every generated case)",
     "method_filter: only the direction 'every kept function matches a pattern under some father name' is proved; 'a named method of a root service remains' is oracle-only; regexp2 is the parameter Cfg.rx",
     "wire_unchanged is stated at model level only (kept_bodies_unchanged: a kept struct-like is literally an original one)",
@@ -43,12 +43,14 @@ def run(ctx):
             ctx.leanchecker(["ThriftVerif.Props.C16"])
     if exe:
         cmd = [exe, "run", "-repo", core.REPO, "-dir", ctx.work, "-seed", str(ctx.seed), "-tier", ctx.tier]
-        try:
-            trimmer = ctx.go_build_repo("./tool/trimmer", "trimmer-bin")
-            thriftgo = ctx.go_build_repo(".", "thriftgo-bin")
-            cmd += ["-trimmer", trimmer, "-thriftgo", thriftgo]
-        except core.MachineryError as e:
-            ctx.obligation("build:trimmer+thriftgo", False, str(e)[-1500:])
+        if ctx.tier == "thorough":
+            # binary level: `trimmer -r` and `thriftgo -g go:trim_idl` on 40 programs written to disk
+            try:
+                trimmer = ctx.go_build_repo("./tool/trimmer", "trimmer-bin")
+                thriftgo = ctx.go_build_repo(".", "thriftgo-bin")
+                cmd += ["-trimmer", trimmer, "-thriftgo", thriftgo]
+            except core.MachineryError as e:
+                ctx.obligation("build:trimmer+thriftgo", False, str(e)[-1500:])
         rc, out = core.sh(cmd, timeout=3000)
         if rc != 0:
             raise core.MachineryError("c16 run failed: " + out[-2000:])
